@@ -78,8 +78,9 @@ class SystemClock: public Clock {
       }
     }
 
-    /** Force a sync with the mReferenceClock. */
+    /** Force a sync with the mReferenceClock. Does nothing if there is none. */
     void forceSync() {
+      if (mReferenceClock == nullptr) return;
       acetime_t nowSeconds = mReferenceClock->getNow();
       setNow(nowSeconds);
     }
